@@ -14,7 +14,10 @@ RULE = ("fault = process death (os._exit in a forked child) at EVERY SQLAlchemy 
         "commit, and after the response was produced - enumerated completely for each "
         "state-changing operation variant (Create, CreateKeyPair, Register of the 7 types with "
         "names/groups/app-info, DeriveKey, Activate, Revoke, Destroy, Set/Modify/DeleteAttribute in "
-        "1.x and 2.0 forms, two- and three-item batches) on a standard store; thorough adds "
+        "1.x and 2.0 forms, two- and three-item batches) on a standard store; AND SIGKILL on entering "
+        "every k-th write-class system call on the database / journal files during the request "
+        "(strace attached to the forked child; 12 variants quick, all thorough), which enumerates "
+        "the points inside SQLite's commit; thorough adds "
         "Hypothesis workloads SIGKILLed by the parent at drawn instants. After the death a fresh "
         "engine is opened on the surviving file. non-trivial = crash point strictly between the "
         "first write statement and the last commit of the request; distinct = (variant, event index)")
@@ -23,8 +26,11 @@ ASSUMPTIONS = ["process death is modelled by os._exit / SIGKILL of the process o
                "the set of legal post-crash stores is {state before, state after each completed "
                "batch item}, computed by uncrashed runs of the same request prefix on copies; "
                "generated key material is compared by shape (masked)",
-               "crash points inside SQLite's own commit are only sampled (thorough tier SIGKILL), "
-               "not enumerated"]
+               "crash points inside SQLite's own commit are enumerated at system-call granularity "
+               "(strace attaches to the forked child and kills it on entering the k-th "
+               "pwrite/fsync/unlink/... on the database files) when ptrace is permitted in the "
+               "sandbox, otherwise only sampled (thorough tier SIGKILL); a death inside one "
+               "write call (torn page) is not modelled"]
 
 NOW = 1_700_001_000
 
@@ -284,7 +290,75 @@ def run_commit_fault(spec):
             o.close()
 
 
+# ---------------------------------------------------------------- death at a system call
+SYS_QUICK = ["Create", "CreateKeyPair", "Register-SymmetricKey", "Register-Certificate", "DeriveKey",
+             "Activate", "Revoke-compromise", "Destroy-SymmetricKey", "ModifyAttribute-name",
+             "DeleteAttribute-group", "SetAttribute-sensitive", "Batch-create-activate-destroy"]
+_syscal = {}
+
+
+def syscall_calibration(label):
+    """System calls (on the database file, its journal/WAL files and the directory) of the
+    uncrashed request, per call name."""
+    if label in _syscal:
+        return _syscal[label]
+    db, idx = store.standard_template()
+    cal = calibration(label)
+    dbp, d, info = crash.syscall_run(db, None, _send_fn(cal["var"]), None)
+    shutil.rmtree(d, ignore_errors=True)
+    if not info["attached"] or not info["acked"]:
+        raise core.HarnessError("system-call calibration of %s failed: %r" % (label, info))
+    _syscal[label] = {"calls": info["calls"], "order": info["order"]}
+    return _syscal[label]
+
+
+def all_syscall_points(tier):
+    labels = SYS_QUICK if tier == "quick" else [v["label"] for v in variants()]
+    pts = []
+    for label in labels:
+        sc = syscall_calibration(label)
+        for name in sorted(sc["calls"]):
+            for k in range(1, sc["calls"][name] + 1):
+                pts.append({"label": label, "fault": "kill-at-syscall", "syscall": name, "k": k})
+    return pts
+
+
+def run_syscall_point(spec):
+    db, idx = store.standard_template()
+    cal = calibration(spec["label"])
+    dbp, d, info = crash.syscall_run(db, None, _send_fn(cal["var"]), (spec["syscall"], spec["k"]))
+    try:
+        if info["ack"] and "child_error" in (info["ack"] or {}):
+            raise core.HarnessError("child failed: %r" % (info["ack"],))
+        if not info["attached"]:
+            raise core.HarnessError("strace could not attach")
+        b = check_survivor(dbp, cal, info, spec["label"])
+    finally:
+        shutil.rmtree(d, ignore_errors=True)
+    cl = ["variant:" + spec["label"], "syscall:" + spec["syscall"],
+          "syscall-kill:" + ("delivered" if info["killed"] else "call-not-reached")]
+    # every such point lies inside the request's write path: between the first write to the
+    # journal and the removal of the journal
+    return b, info["killed"], cl
+
+
+def syscall_worker(tier, shard, nshards):
+    col = core.Collector(PID)
+    for i, spec in enumerate(all_syscall_points(tier)):
+        if i % nshards != shard:
+            continue
+        b, nt, cl = run_syscall_point(spec)
+        col.record(spec, nontrivial=nt, classes=cl, buckets=b)
+        col.bump("syscall_points")
+    return col
+
+
 def replay(spec):
+    if spec.get("fault") == "kill-at-syscall":
+        ok, why = crash.strace_available()
+        if not ok:
+            raise core.HarnessError("cannot replay a system-call crash point here: " + why)
+        return run_syscall_point(spec)[0]
     if "sends" in spec:
         return run_kill(spec)[0]
     if spec.get("fault") == "commit-error":
@@ -397,7 +471,25 @@ def run(ctx):
     if not ctx.quick:
         dicts += core.run_sharded("vlib.props.c09", "kill_worker",
                                   [(150, core.derive_seed(ctx.seed, "c09", i)) for i in range(n)])
+    ok, why = crash.strace_available()
+    if ok:
+        # calibrate in the parent (the forked workers inherit the tables)
+        npts = len(all_syscall_points(ctx.tier))
+        dicts += core.run_sharded("vlib.props.c09", "syscall_worker",
+                                  [(ctx.tier, i, n) for i in range(n)])
     col = core.merged(PID, dicts)
     col.extra["exhaustive"] = True
     col.extra["exhaustive_over"] = "every SQL-event index of every listed operation variant"
+    if ok:
+        if col.extra.get("syscall_points") != npts:
+            raise core.HarnessError("system-call points incomplete: %r of %d"
+                                    % (col.extra.get("syscall_points"), npts))
+        col.extra["syscall_level"] = (
+            "every k-th call of every write-class system call (%s) on the database file, its "
+            "journal/WAL files and the directory during the request, for the variants %s: %d "
+            "crash points, i.e. the points INSIDE SQLite's commit are enumerated as well"
+            % (", ".join(crash.SYSCALLS), "of SYS_QUICK" if ctx.quick else "listed above", npts))
+        col.extra["syscalls_per_variant"] = dict((l, c["calls"]) for l, c in _syscal.items())
+    else:
+        col.extra["syscall_level"] = "not run here: " + why
     return col
